@@ -82,7 +82,7 @@ func c20File(c c05Case, viol func(sig, detail string), r *core.Run) {
 	class := "file"
 	if c.Kind == "hand" {
 		class = "hand-sized"
-		if spec, ok := gen.HandByLabel(c.Hand); ok && spec.BlockSizes != "all" {
+		if spec, ok := gen.HandByLabel(c.Hand); ok && !spec.Sized() {
 			class = "hand-unsized"
 		}
 	}
